@@ -7,6 +7,7 @@ from typing import List
 from harness.lib.core import VERIF, Ctx, lean_lock, run_driver, shrink_ops
 from harness.extract import filter as x_filter
 from harness.extract import forward as x_forward
+from harness.extract import forward_arp as x_forward_arp
 from harness.rigs import net08 as rnet
 from harness.rigs import route as rroute
 
@@ -37,7 +38,16 @@ MANIFEST = {
             "on both hosts, server software present, a rule on the router). A host's next hop for a destination outside every enabled local subnet is ALWAYS its default gateway: "
             "a function of interfaces and gateway only, never of the ARP cache (the host-side resolution function is translated "
             "statement by statement). Application exchanges identified by a (port, protocol) key (receiver look-up, open-port test, "
-            "answer to the source) are in the model; the addressee, termination and fuel theorems range over them. Float metrics: on "
+            "answer to the source) are in the model; the addressee, termination and fuel theorems range over them. The ARP side is "
+            "TRANSLATED: HostARP / RouterARP _get_arp_cache_mac_address and _get_arp_cache_network_interface, ARP.add_arp_cache_entry, "
+            "ARP.send_arp_request and the request / reply handlers are turned statement by statement into Lean functions "
+            "(Gen/ForwardArp.lean) and one activation of the model's arpMac / arpIfc / addArp / sendArpReq is proved to BE the "
+            "translated method for every state, node, address, flag pair and fuel (C08_gen_arp_*). WHO A NODE SENDS TO is translated too: "
+            "SessionManager / RouterSessionManager resolve_outbound_transmission_details (unicast branch) and "
+            "resolve_outbound_network_interface become programs over the stateful ARP look-ups (order kept) and the model's "
+            "resolveDetails / resolveOut are proved to compute exactly what these programs compute for every route table, ARP cache, "
+            "destination and fuel (C08_gen_session_resolve_*); a concrete router shows an ARP-first resolution choosing another next "
+            "hop (C08_session_resolve_countermodel). Float metrics: on "
             "A switch re-points a MAC to the port it was last seen on, whatever its table held (learning is unconditional and precedes "
             "the table read); R-net re-cables hosts at run time. On finite metrics the float loop is the integer loop; for every table the selected entry has no strictly cheaper rival of its "
             "prefix, and for every nan-free (= constructible: RouteEntry refuses NaN) table it is the minimum in -inf <= finite <= inf. Tie: constants, comparison "
@@ -64,7 +74,7 @@ MODULES = ["PrimaiteModel.Props.C08", "PrimaiteModel.Props.C08Forward", "Primait
            "PrimaiteModel.Props.C08Addressee", "PrimaiteModel.Props.C08Liveness", "PrimaiteModel.Props.C08FuelMono",
            "PrimaiteModel.Props.C08Termination", "PrimaiteModel.Props.C08RouteOps", "PrimaiteModel.Props.C08Cold",
            "PrimaiteModel.Props.C08ColdRouter", "PrimaiteModel.Props.C08HostHop", "PrimaiteModel.Props.C08Metric",
-           "PrimaiteModel.Props.C08SwitchLearn", "PrimaiteModel.Props.C08ColdApp"]
+           "PrimaiteModel.Props.C08SwitchLearn", "PrimaiteModel.Props.C08ColdApp", "PrimaiteModel.Props.C08ArpGen", "PrimaiteModel.Props.C08SessionGen"]
 EXE = "drv_c08"
 
 
@@ -222,7 +232,7 @@ def _run_net(ctx: Ctx):
                 if good == "1" and out[q] == "none":
                     ctx.oblige(f"fuel bound theorem instance on {name}", "correspondence", False,
                                f"{lines_all[q]} needs more than fuelBound although the configuration passes goodCfgB")
-        for key in ("via_host", "gw_is_host", "gw_off_subnet", "dmz_cross", "recursive_nh", "two_gateway"):
+        for key in ("via_host", "gw_is_host", "gw_off_subnet", "dmz_cross", "recursive_nh", "two_gateway", "dual_homed_other_nic_down", "dead_port_subnet"):
             if notes.get(key):
                 ctx.count("net-misconfig:" + key)
         if notes.get("dual_homed") is not None:
@@ -395,6 +405,7 @@ def replay(rec: dict) -> bool:
 def run(ctx: Ctx):
     with lean_lock():
         ctx.extract("Forward", x_forward.emit)
+        ctx.extract("ForwardArp", x_forward_arp.emit)  # ARP look-ups / add entry / send request / handlers, translated
         ctx.extract("Filter", x_filter.emit)  # C06's extractor: firewall entry points (tied by C08_gen_firewall)
         ctx.prove(MODULES, exes=[EXE], clean=False, leanchecker=ctx.thorough)
     ctx.cov["rule"] = ("route cases = (surface in {RouteTable api, Router.from_config}, table, default, interleaved queries), non-trivial "
